@@ -138,10 +138,13 @@ def gen_field_ops(ctx):
     for N in WIDTHS:
         for v in [-1, 0, 1, (1 << N) - 1, 1 << N, (1 << N) + 1, -(1 << N), r.range(-(1 << 20), 1 << 20), r.range(-(1 << 30), 1 << 30)]:
             ops.append("pval %d %d" % (N, v))
+    # channels of 24 and 32 bits in a 64-bit field (wider than the property's quantifier asks for; the fixed finding
+    # C08-dynamic-reference-wide-channel-shift lived here).  Buffers hold a whole bit field so that the pre-fix tree shows
+    # the lost bits and not only its over-read.
     for N in (24, 32):
         for first in range(8):
-            for op, arg in (("set", (1 << N) - 1), ("set", r.below(1 << N)), ("inc", 0), ("get", 0)):
-                ln = data_size(first, N, 8) + r.below(2)
+            for op, arg in (("set", (1 << N) - 1), ("set", r.below(1 << N)), ("inc", 0), ("dec", 0), ("add", r.range(1, 300)), ("get", 0)):
+                ln = 8 + r.below(3)
                 ops.append("xdop 64 %d %d 0 %d %s %d %s" % (N, ln, first, op, arg, patterned(r, ln)))
     return ops
 
@@ -199,6 +202,11 @@ def gen_pixel_ops(ctx):
             for n in range(-40, 41): ops.append("iadv %s %s %d %d" % (name, d, off, n))
             if th:
                 for _ in range(200): ops.append("iadv %s %s %d %d" % (name, d, off, r.choice([r.range(-4000, 4000), r.range(-100000, 100000)])))
+            # moves across the point where _bit_offset + n*bit_size leaves the int range (the narrowing removed by fix 30b4cc6)
+            for sign in (1, -1):
+                far = (2**31 - off) // bs
+                for dlt in (-1, 0, 1, r.range(2, 1000)):
+                    if abs((far + dlt) * bs) < 2**32 - 64: ops.append("iadv %s %s %d %d" % (name, d, off, sign * (far + dlt)))
             for k in (0, 1, 2, 3, 7, 8, 9, 40): ops.append("iinc %s %s %d %d" % (name, d, off, k))
     return ops
 
@@ -251,8 +259,7 @@ BINARIES = [("field%d" % p, "harness/C08/field.cpp", p) for p in (1, 2, 3, 4)] +
 ASSUME = [
     "little-endian byte order (the model assembles a BitField from its bytes little-endian; the harness runs on x86-64)",
     "channel values handed to operator=(integer_t) are in range (value <= max): larger values are out of contract (BOOST_ASSERT only), see theorem C08_unguarded_witness",
-    "bit cursor moves keep _bit_offset + num_bits inside the `int` the code narrows it to (theorem hypotheses; C08_adv_narrowing_witness shows what happens beyond)",
-    "run-time first-bit references: first_bit + NumBits fits the promoted integer_t (always true for the widths the property quantifies over, theorem C08_promotion_guard; a 32-bit channel at a non-zero bit offset loses bits: C08_dyn_wide_channel_witness, reproduced on the real headers by the xdop ops, outside the property's quantifier)",
+    "channel widths up to 64 bits with first_bit + NumBits inside the bit field; the harness instantiates widths 1..8, 10, 12, 16 and (64-bit fields) 24, 32",
     "same-type packed_pixel assignment is the compiler-generated copy of the bit field (padding bits of the value object are copied with it); the frame law for padding bits is judged for channel writes, cross-layout assignment, and every bit-aligned reference operation",
 ]
 
